@@ -488,7 +488,7 @@ func c11Recursion(w *World, r *Report) {
 	}{{"isFeatureValid", 2}, {"validateGrouping", 2}} {
 		f := w.Method("compile", "Compiler", c.fn)
 		fd, _ := w.FuncDecl(f)
-		sf := w.SSAFunc(f)
+		sf := recursionCarrier(w.SSAFunc(f))
 		g := ssaCycleGuard(w, sf, func(call *ssa.Call) bool { return call.Call.StaticCallee() == sf })
 		testIdx, insIdx, recIdx, delIdx := -1, -1, -1, -1
 		if g.tested {
@@ -523,7 +523,15 @@ func c11Recursion(w *World, r *Report) {
 	vg := w.Method("compile", "Compiler", "validateGrouping")
 	vfd, _ := w.FuncDecl(vg)
 	transitive := false
-	ast.Inspect(vfd.Body, func(x ast.Node) bool {
+	walkFd := vfd
+	if carrier := recursionCarrier(w.SSAFunc(vg)); carrier != nil {
+		if o, ok := carrier.Object().(*types.Func); ok {
+			if cfd, cp := w.FuncDecl(o); cfd != nil && cp == p {
+				walkFd = cfd
+			}
+		}
+	}
+	ast.Inspect(walkFd.Body, func(x ast.Node) bool {
 		rs, ok := x.(*ast.RangeStmt)
 		if !ok {
 			return true
@@ -923,4 +931,44 @@ func c11UseTreeReaders(w *World, r *Report, rule string) {
 	sort.Strings(ws)
 	r.Check(strings.Join(rs, ",") == "UsesRoot", rule, "readers of node.useTree", token.NoPos, strings.Join(rs, ","), "node.useTree is read by {"+strings.Join(rs, ",")+"}, not by UsesRoot alone: something other than re-homing of references depends on the using module — e.g. an error location built from the using module's text and the defining module's offset")
 	r.Check(strings.Join(ws, ",") == "Clone", rule, "writers of node.useTree", token.NoPos, strings.Join(ws, ","), "node.useTree is written by {"+strings.Join(ws, ",")+"}, not by Clone alone")
+}
+
+// recursionCarrier: f when it calls itself; otherwise the one function of
+// f's package, among those f reaches through static calls (two levels), that
+// calls itself — the recursion of f moved into a helper or a method of a
+// small state struct (the nearest level that has exactly one).  f itself
+// when there is no such function.
+func recursionCarrier(f *ssa.Function) *ssa.Function {
+	if f == nil {
+		return nil
+	}
+	selfRec := func(g *ssa.Function) bool {
+		for _, b := range g.Blocks {
+			for _, in := range b.Instrs {
+				if c, ok := in.(ssa.CallInstruction); ok && c.Common().StaticCallee() == g {
+					return true
+				}
+			}
+		}
+		return false
+	}
+	if selfRec(f) {
+		return f
+	}
+	// nearest first: the functions f calls itself, then those they call
+	for depth := 0; depth <= 1; depth++ {
+		var found []*ssa.Function
+		for g := range calleesDeep(f, depth) {
+			if g.Blocks != nil && g.Pkg == f.Pkg && g != f && selfRec(g) {
+				found = append(found, g)
+			}
+		}
+		if len(found) == 1 {
+			return found[0]
+		}
+		if len(found) > 1 {
+			break
+		}
+	}
+	return f
 }
